@@ -144,8 +144,17 @@ def gen_resp(rng, nn, quitty):
     return resp
 
 
+def gen_wide(rng, max_nodes):
+    """one or two directories with many children (batch steals move several messages)"""
+    k = rng.randint(3, max(3, max_nodes - 1))
+    shape = [[([None] if rng.random() < 0.2 else None) for _ in range(k)]]
+    if rng.random() < 0.3:
+        shape.append(None)
+    return forest_from_shape(shape)
+
+
 def gen_case(rng, base, max_nodes):
-    f = gen_forest(rng, max_nodes)
+    f = gen_wide(rng, max_nodes) if rng.random() < 0.2 else gen_forest(rng, max_nodes)
     nn = size(f)
     n = rng.choice([2, 2, 3, 3, 4, 1, 0])
     mode = rng.random()
@@ -176,6 +185,7 @@ class Stats:
         self.kinds = {}
         self.steals_ok = 0
         self.steal_batches = 0
+        self.quit_stolen = 0
         self.quit_runs = 0
         self.waits = 0
         self.early_quit = 0
@@ -234,12 +244,28 @@ def check_runs(ctx, cases, st, want_decisions=False):
         st.workers[nw] = st.workers.get(nw, 0) + 1
         steal_ok = waits = 0
         deact_zero_at = None
+        last_recv = {}
+        prev_lens = None
         for k, sl in enumerate(slots):
             kind = sl[1]
             st.kinds[kind] = st.kinds.get(kind, 0) + 1
             recv = ints(sl[2])
+            lens = ints(sl[4][2]) if len(sl[4]) == 3 else None
+            if recv:
+                last_recv[sl[0]] = recv
             if kind == 4 and recv and recv[0] in (1, 2):
                 steal_ok += 1
+                if recv[0] == 1:
+                    st.quit_stolen += 1
+                if prev_lens and lens and sum(prev_lens) - sum(lens) == 1 and \
+                        any(a - b >= 2 for a, b in zip(prev_lens, lens)):
+                    st.steal_batches += 1
+            if kind == 7 and not ints(sl[3]) and last_recv.get(sl[0], [0])[0] == 2 and ints(sl[4])[1] == 1:
+                st.dropped_work += 1       # a received Work was overridden by the quit flag
+                last_recv[sl[0]] = [0]
+            if kind == 7 and ints(sl[3]):
+                last_recv[sl[0]] = [0]
+            prev_lens = lens
             if kind == 9:
                 waits += 1
             if kind == 5 and ints(sl[4])[0] == 0 and deact_zero_at is None:
@@ -305,7 +331,7 @@ def explore(ctx, st, base, n, forest, resp, quit_at, bound, cap):
     frontier = [[]]
     total = 0
     for level in range(bound + 1):
-        if not frontier:
+        if not frontier or len(ctx.violations) >= 25:
             break
         if total + len(frontier) > cap:
             ctx.rng.shuffle(frontier)
@@ -394,14 +420,18 @@ def run(ctx):
                     corpus.append(mk_case(base, n, f, [0] * nn, q, 1, 5 * q + n, []))
         check_runs(ctx, corpus, st)
         # generated
-        ng = ctx.count(1500)
-        check_runs(ctx, [gen_case(rng, base, 9) for _ in range(ng)], st)
+        ng = ctx.count(4500)
+        while ng > 0 and len(ctx.violations) < 25:      # stop early when the code is plainly broken
+            k = min(ng, 750)
+            check_runs(ctx, [gen_case(rng, base, 9) for _ in range(k)], st)
+            ng -= k
         # exhaustive up to a preemption bound on tiny forests
         ex = 0
         if ctx.quick():
-            for shape, n in (([[None, None]], 2), ([[[None]], None], 3)):
+            for shape, n, bound in (([[None]], 2, 3), ([[None, None]], 2, 2), ([[[None]], None], 3, 1),
+                                    ([[None], None], 2, 2), ([[None]], 3, 2)):
                 f = forest_from_shape(shape)
-                ex += explore(ctx, st, base, n, f, [0] * size(f), None, 1, 400)
+                ex += explore(ctx, st, base, n, f, [0] * size(f), None, bound, 1500)
         else:
             for shape in TINY:
                 f = forest_from_shape(shape)
@@ -410,8 +440,9 @@ def run(ctx):
                     ex += explore(ctx, st, base, n, f, [0] * nn, None, bound, 20000)
                     ex += explore(ctx, st, base, n, f, [0] * nn, rng.randrange(nn), bound - 1, 5000)
         ctx.cov["exhaustive_preemption_bounded_runs"] = ex
-        # real threads, no scheduler
-        soak(ctx, base, 20 if ctx.quick() else 400, 4 if ctx.quick() else 24)
+        # real threads, no scheduler (skipped when the scheduled runs already show the walker hanging)
+        if not any("termination" in v[2] for v in ctx.violations):
+            soak(ctx, base, 20 if ctx.quick() else 400, 4 if ctx.quick() else 24)
     finally:
         shutil.rmtree(base, ignore_errors=True)
     ctx.cov["scheduled_runs"] = st.runs
@@ -419,6 +450,9 @@ def run(ctx):
     ctx.cov["yield_kinds"] = {KINDS.get(k, k): v for k, v in sorted(st.kinds.items())}
     ctx.cov["workers_histogram"] = st.workers
     ctx.cov["successful_steals"] = st.steals_ok
+    ctx.cov["steals_moving_a_batch"] = st.steal_batches
+    ctx.cov["quit_messages_stolen"] = st.quit_stolen
+    ctx.cov["work_dropped_after_quit_flag"] = st.dropped_work
     ctx.cov["runs_with_idle_wait"] = st.waits
     ctx.cov["runs_with_quit_answer"] = st.quit_runs
     ctx.cov["runs_quit_broadcast_while_work_in_hand"] = st.early_quit
